@@ -212,6 +212,38 @@ static void mask_cases(V *v, std::vector<V *> &others, unsigned n) {
 	}
 }
 
+
+// ---- Pedersen commitments: records on both sides of the table limit TMCG_MAX_FPOWM_N ---------------------------------
+static std::string tok_list(const std::vector<mpz_ptr> &v) { std::string r; for (mpz_ptr z : v) { if (!r.empty()) r += ","; r += hx(z); } return r.empty() ? "_" : r; }
+static void pedersen_cases(const Grp &G, size_t nmax, const std::vector<size_t> &ns) {
+	Z h; { Z x; do gen_below(x, G.q); while (!mpz_sgn(x)); mpz_powm(h, G.g, x, G.p); }
+	PedersenCommitmentScheme com(nmax, G.p, G.q, G.k, h, G.pbits, G.qbits);
+	std::string gs = tok_list(com.g);
+	auto head = [&](Rec &r) -> Rec & { return r.z(com.p).z(com.q).z(com.h).t(gs); };
+	for (size_t n : ns) {
+		std::vector<Z> ms(n); std::vector<mpz_ptr> m;
+		for (size_t i = 0; i < n; i++) { gen_below(ms[i], G.q); if (gen().below(12) == 0) mpz_set_ui(ms[i], gen().below(2)); if (gen().below(40) == 0) mpz_sub_ui(ms[i], G.q, 1); m.push_back(ms[i]); }
+		std::string mt = tok_list(m);
+		Z c, r, c1, c2;
+		{ Capture cap; com.Commit(c, r, m); std::vector<Z> raws = cap.raws(com.q);
+		  if (raws.size() == 1) { Rec rc("pcm"); head(rc).t(mt).z(raws[0]).t(c.h() + "," + r.h()); } }
+		for (int prot = 0; prot < 2; prot++) { Z &cc = prot ? c1 : c2; bool ok = true;
+			try { com.CommitBy(cc, r, m, prot); } catch (std::exception &) { ok = false; }
+			{ Rec rc("pcb"); head(rc).t(mt).z(r).d(prot).t(ok ? cc.h() : "none"); }
+			if (!ok || mpz_cmp(cc, c)) propfail("pedersen-commitby-differs", "CommitBy(protection=" + std::to_string(prot) + ") differs from Commit for the same randomizer, " + std::to_string(n) + " messages, p=" + hx(com.p)); }
+		auto verify = [&](mpz_srcptr cc, mpz_srcptr rr, const std::vector<mpz_ptr> &mm) { int ret;
+			try { ret = com.Verify(cc, rr, mm) ? 1 : 0; } catch (std::exception &) { ret = -1; }
+			Rec rc("pcv"); head(rc).z(cc).z(rr).t(tok_list(mm)).t(vd(ret)); return ret; };
+		if (verify(c, r, m) != 1) propfail("pedersen-open-rejected", "PedersenCommitmentScheme::Verify rejects the honest opening of " + std::to_string(n) + " messages, p=" + hx(com.p));
+		// wrong openings (model comparison): value at the last index / at an index below the limit changed, c off, r out of range / other representative
+		{ Z sv(ms[n - 1]); mpz_add_ui(ms[n - 1], ms[n - 1], 1); verify(c, r, m); mpz_set(ms[n - 1], sv); }
+		{ size_t i = gen().below(n); Z sv(ms[i]); mpz_neg(ms[i], ms[i]); verify(c, r, m); mpz_set(ms[i], sv); }
+		{ Z x(c); mpz_add_ui(x, x, 1); verify(x, r, m); mpz_add(x, c, com.p); verify(x, r, m); mpz_set_ui(x, 0); verify(x, r, m); }
+		{ Z x(r); mpz_sub(x, r, com.q); verify(c, x, m); mpz_set(x, com.q); verify(c, x, m); mpz_add_ui(x, r, 1); verify(c, x, m); }
+		if (n > 1) { std::vector<mpz_ptr> sh(m.begin(), m.end() - 1); verify(c, r, sh); }
+	}
+}
+
 static void run_group(const Grp &G, unsigned k, unsigned n) {
 	std::vector<V *> pl;
 	for (unsigned i = 0; i < k; i++) { V *v = mk(G); v->KeyGenerationProtocol_GenerateKey(); pl.push_back(v); }
@@ -238,6 +270,9 @@ static int vtmf_main(Args &A) {
 	std::vector<std::pair<unsigned, unsigned> > sizes = { {16, 8}, {24, 12}, {40, 17}, {64, 32} };
 	if (T) { sizes.push_back({96, 48}); sizes.push_back({128, 64}); sizes.push_back({36, 32}); }
 	unsigned rounds = T ? 4 : 2, n = T ? 4 : 3;
+	{ // Pedersen: message counts around TMCG_MAX_FPOWM_N = 256 (generators from index 256 on have no table)
+	  Grp P1 = gen_group(24, 12); pedersen_cases(P1, 258, T ? std::vector<size_t>{ 1, 2, 7, 255, 256, 257, 258 } : std::vector<size_t>{ 1, 3, 256, 257 });
+	  Grp P2 = gen_group(64, 32); pedersen_cases(P2, T ? 300 : 258, T ? std::vector<size_t>{ 5, 257, 300 } : std::vector<size_t>{ 2, 258 }); }
 	for (unsigned rd = 0; rd < rounds; rd++) {
 		for (auto &sz : sizes) { Grp G = gen_group(sz.first, sz.second); run_group(G, 2 + gen().below(2), n); }
 		Grp Q = gen_group_qr(rd % 2 ? 32 : 16, rd % 2 ? 16 : 8); run_group(Q, 2, n);
